@@ -1,0 +1,51 @@
+//go:build verif
+
+package node
+
+import (
+	"time"
+
+	"go.opentelemetry.io/otel"
+	"k8s.io/apimachinery/pkg/runtime"
+	"k8s.io/client-go/tools/record"
+	"sigs.k8s.io/controller-runtime/pkg/client"
+
+	register "github.com/AliyunContainerService/terway/pkg/controller"
+	"github.com/AliyunContainerService/terway/pkg/vswitch"
+)
+
+// NewVerifReconcileNode builds the IPAM node controller with injected dependencies (in production it
+// is only constructed inside the init() registration closure from a manager.Manager).
+func NewVerifReconcileNode(c client.Client, scheme *runtime.Scheme, aliyun register.Interface, vsw *vswitch.SwitchPool, rec record.EventRecorder, fullSync, gcPeriod time.Duration) *ReconcileNode {
+	return &ReconcileNode{
+		client:             c,
+		scheme:             scheme,
+		record:             rec,
+		aliyun:             aliyun,
+		vswpool:            vsw,
+		fullSyncNodePeriod: fullSync,
+		gcPeriod:           gcPeriod,
+		tracer:             otel.Tracer("verif"),
+		eniBatchSize:       5,
+	}
+}
+
+// VerifResetThrottle clears the 1s per-node reconcile throttle and the pool-GC period (virtual time).
+func (n *ReconcileNode) VerifResetThrottle(name string, resetGC bool) {
+	v, ok := n.cache.Load(name)
+	if !ok {
+		return
+	}
+	st := v.(*NodeStatus)
+	st.LastReconcileTime = time.Time{}
+	if resetGC {
+		st.LastGCTime = time.Time{}
+	}
+}
+
+// VerifForceSync makes the next reconcile run a full cloud synchronisation.
+func (n *ReconcileNode) VerifForceSync(name string) {
+	if v, ok := n.cache.Load(name); ok {
+		v.(*NodeStatus).NeedSyncOpenAPI.Store(true)
+	}
+}
